@@ -161,6 +161,8 @@ impl T {
 pub enum AV {
     Int(i64),
     Ints(Vec<i64>),
+    /// list of integer lists (pseudo-attributes only)
+    Lists(Vec<Vec<i64>>),
     Str(String),
     /// float attribute with an integer value
     Flt(i64),
@@ -235,6 +237,7 @@ impl Case {
                 Some(AV::Int(i)) => json!([i]),
                 Some(AV::Flt(i)) => json!([i]),
                 Some(AV::Ints(v)) => json!([v]),
+                Some(AV::Lists(v)) => json!([v]),
                 Some(AV::Str(s)) => json!([s]),
                 Some(AV::Tens(t)) => json!([t.json(true)]),
             };
@@ -250,6 +253,7 @@ impl Case {
                     Some(AV::Int(_)) => "int",
                     Some(AV::Flt(_)) => "flt",
                     Some(AV::Ints(_)) => "ints",
+                    Some(AV::Lists(_)) => "lists",
                     Some(AV::Str(_)) => "str",
                     Some(AV::Tens(_)) => "tens",
                 }])
@@ -282,6 +286,9 @@ impl Case {
                 "int" => Some(AV::Int(v[0].as_i64().unwrap())),
                 "flt" => Some(AV::Flt(v[0].as_i64().unwrap())),
                 "ints" => Some(AV::Ints(v[0].as_array().unwrap().iter().map(|x| x.as_i64().unwrap()).collect())),
+                "lists" => Some(AV::Lists(
+                    v[0].as_array().unwrap().iter().map(|l| l.as_array().unwrap().iter().map(|x| x.as_i64().unwrap()).collect()).collect(),
+                )),
                 "str" => Some(AV::Str(v[0].as_str().unwrap().to_string())),
                 "tens" => Some(AV::Tens(T::from_json(&v[0]).unwrap())),
                 other => panic!("bad attr kind {other}"),
@@ -314,11 +321,15 @@ impl Case {
             &out_names.iter().map(|s| s.as_str()).collect::<Vec<_>>(),
         );
         for (name, v) in &self.attrs {
+            if name.starts_with('_') {
+                continue; // pseudo-attribute: logged for the spec only (e.g. the parsed Einsum equation)
+            }
             let a = match v {
                 None => continue,
                 Some(AV::Int(i)) => Attr::Int(*i),
                 Some(AV::Flt(i)) => Attr::Float(*i as f32),
                 Some(AV::Ints(v)) => Attr::Ints(v.clone()),
+                Some(AV::Lists(_)) => continue,
                 Some(AV::Str(s)) => Attr::Str(s.clone()),
                 Some(AV::Tens(t)) => Attr::Tensor(t.to_onnx("")),
             };
@@ -492,7 +503,7 @@ pub const OPS: &[&str] = &[
     "Trilu", "Range", "OneHot", "NonZero", "EyeLike", "ConstantOfShape", "DepthToSpace", "MatMul", "Gemm",
     "MatMulInteger", "Conv", "ConvTranspose", "ConvInteger", "MaxPool", "AveragePool", "GlobalMaxPool",
     "GlobalAveragePool", "Resize", "CastLike", "Scatter", "Ceil", "Floor", "Round", "IsInf", "IsNaN", "PRelu",
-    "LeakyRelu", "ReverseSequence", "DequantizeLinear", "QuantizeLinear",
+    "LeakyRelu", "ReverseSequence", "DequantizeLinear", "QuantizeLinear", "Einsum",
 ];
 
 fn gen_case(op: &str, r: &mut Rng) -> Case {
@@ -1444,14 +1455,55 @@ fn gen_case(op: &str, r: &mut Rng) -> Case {
             sc.data.iter_mut().for_each(|v| *v = 1 << *v); // 1, 2, 4
             let (lo, hi) = if r.chance(1, 4) { (-600, 600) } else { (-40, 40) };
             let t = format!("zp={},per_axis={per_axis}", zp.as_ref().map(|z| z.dt.name()).unwrap_or("none"));
-            c.input(tensor(r, &s, Dt::F32, lo, hi)).input(sc).opt_input(zp).int("axis", axis).tag(t)
+            let tg = if per_axis && axis.is_none() && s.len() > 2 { "per_axis,default_axis_is_not_last_axis" } else if per_axis { "per_axis" } else { "per_tensor" };
+            c.input(tensor(r, &s, Dt::F32, lo, hi)).input(sc).opt_input(zp).int("axis", axis).tag(tg.into()).combo(t)
+        }
+        "Einsum" => {
+            let dt = *r.pick(&[Dt::F32, Dt::F32, Dt::F32, Dt::I32]);
+            // labels a..e with extents 1..3
+            let ext: Vec<usize> = (0..5).map(|_| r.range(1, 3) as usize).collect();
+            let n_in = *r.pick(&[1usize, 2, 2, 2, 3]);
+            let mut terms: Vec<Vec<i64>> = Vec::new();
+            for _ in 0..n_in {
+                let rank = r.range(0, 3) as usize;
+                let diag = r.chance(1, 12);
+                let mut t: Vec<i64> = Vec::new();
+                while t.len() < rank {
+                    let l = r.below(5) as i64;
+                    if diag || !t.contains(&l) {
+                        t.push(l);
+                    }
+                }
+                terms.push(t);
+            }
+            let mut labels: Vec<i64> = terms.iter().flatten().copied().collect();
+            labels.sort();
+            labels.dedup();
+            let implicit = r.chance(1, 4);
+            let mut out: Vec<i64> = Vec::new();
+            if !implicit {
+                r.shuffle(&mut labels);
+                let k = r.range(0, labels.len() as i64) as usize;
+                out = labels[..k].to_vec();
+            }
+            let ch = |l: &i64| (b'a' + *l as u8) as char;
+            let mut eq: String = terms.iter().map(|t| t.iter().map(ch).collect::<String>()).collect::<Vec<_>>().join(",");
+            if !implicit {
+                eq.push_str("->");
+                eq.extend(out.iter().map(ch));
+            }
+            let mut c = c;
+            for t in &terms {
+                let shape: Vec<usize> = t.iter().map(|l| ext[*l as usize]).collect();
+                c = c.input(tensor(r, &shape, dt, -4, 4));
+            }
+            let kind = if terms.iter().any(|t| { let mut u = t.clone(); u.sort(); u.dedup(); u.len() != t.len() }) { "repeated_label" } else { "distinct_labels" };
+            c.attr("equation", Some(AV::Str(eq.clone()))).attr("_terms", Some(AV::Lists(terms))).attr("_out", Some(AV::Ints(out)))
+                .int("_implicit", Some(implicit as i64))
+                .tag(format!("{},inputs={n_in},{kind},{}", dt.name(), if implicit { "implicit" } else { "explicit" }))
         }
         other => panic!("no generator for {other}"),
     };
-    classify(&mut c);
-    if c.combo.is_empty() {
-        c.combo = c.tag.clone();
-    }
     c.vshape = r.chance(1, 3);
     // "parameter" inputs (everything but input 0) as initializers, sometimes
     if r.chance(1, 4) {
@@ -1460,6 +1512,10 @@ fn gen_case(op: &str, r: &mut Rng) -> Case {
                 c.init[k] = true;
             }
         }
+    }
+    classify(&mut c);
+    if c.combo.is_empty() {
+        c.combo = c.tag.clone();
     }
     c
 }
@@ -1548,6 +1604,15 @@ fn classify(c: &mut Case) {
             }
             let last = attr_int("select_last_index") == Some(1);
             Some(format!("{},{}", if ties { "ties" } else { "no_ties" }, if last { "select_last" } else { "select_first" }))
+        }
+        "ReduceSum" | "ReduceProd" | "ReduceMin" | "ReduceMax" | "ReduceSumSquare" | "ReduceL1" | "ReduceMean" => {
+            let axes = match t(1) {
+                None => "absent",
+                Some(a) if a.data.is_empty() => "empty",
+                _ => "given",
+            };
+            let src = if t(1).is_none() { "none" } else if c.init[1] { "constant" } else { "dynamic" };
+            Some(format!("axes={axes},axes_input={src},noop={}", attr_int("noop_with_empty_axes").unwrap_or(0)))
         }
         "MatMul" => {
             let (a, b) = (t(0).unwrap(), t(1).unwrap());
